@@ -374,11 +374,10 @@ async def validate_data_element_valuepool(
                 hints = None  # TODO: Get all hints from possible values
 
     # if no possible values are found, the requirement is set to forbidden
-    # pylint: disable = pointless-statement
     # Case: segment_requirement is required, but no possible values are appended
     fc_validation_result: bool = True  # by default Format Constraints are not evaluated for ValuePools
     if not possible_values:
-        requirement_validation_data_element is RequirementValidationValue.IS_FORBIDDEN
+        requirement_validation_data_element = RequirementValidationValue.IS_FORBIDDEN
         hints = None
     else:
         if data_element.entered_input in possible_values:
